@@ -5,7 +5,7 @@ import BronVerif.Model.LinAlg
 Policies of the five families of `pkg/mpc/sharing/accessstructures`, their constructor checks,
 their meaning (`isQualified`) and the monotone span programme each family induces
 (`inducedMSP`, mirroring `threshold.InducedMSP` (Vandermonde), `unanimity.InducedMSP`,
-`cnf.InducedMSP` (clause vectors, clauses ordered by the bitmask of the maximal unqualified set),
+`cnf.InducedMSP` (clause vectors, clauses ordered as the bitmasks of the maximal unqualified sets, compared as descending member lists),
 `hierarchical.InducedMSP` (Birkhoff–Vandermonde after `CheckConstraints`) and
 `boolexpr.InducedMSP` (Liu–Cao–Wong gate expansion)).
 -/
@@ -202,10 +202,24 @@ def cnfClauseVector (m i : Nat) : List F :=
   if i + 1 < m then unitVec m (i + 1)
   else (List.range m).map fun j => if j = 0 then (1 : F) else -1
 
+/-- members in descending order -/
+def descSorted (s : List Nat) : List Nat := (dedup s).mergeSort fun a b => decide (b ≤ a)
+
+/-- lexicographic `≤` on lists of naturals (a proper prefix is smaller) -/
+def lexLe : List Nat → List Nat → Bool
+  | [], _ => true
+  | _ :: _, [] => false
+  | a :: as, b :: bs => if a < b then true else if b < a then false else lexLe as bs
+
+/-- the order `cnf.InducedMSP` gives the maximal unqualified sets: that of the sets read as bit masks
+(bit `id-1` for every member), i.e. the lexicographic order of the member lists sorted descending
+(no bound on the IDs; for IDs ≤ 64 it is the order of `idMask`) -/
+def cnfSetLe (a b : List Nat) : Bool := lexLe (descSorted a) (descSorted b)
+
 def cnfMSP (sets : List (List Nat)) : MSP F :=
   let mus := cnfNormalise sets
   let hs := sortedSet mus.flatten
-  let sorted := mus.mergeSort fun a b => decide (idMask a ≤ idMask b)
+  let sorted := mus.mergeSort cnfSetLe
   let m := sorted.length
   let rows := sorted.zipIdx.flatMap fun (u, i) =>
     (hs.filter fun id => !u.contains id).map fun id => ((cnfClauseVector m i : List F), id)
